@@ -19,7 +19,7 @@ import numpy as np
 
 import sim  # noqa: F401
 from sim import build
-from sim.core import attempt, deep_tier, exc_tag
+from sim.core import attempt, bulk_tier, deep_tier, exc_tag
 from sim.oracle import carry_over, first_diff, hist_arrays, missed_tuple, wellformed_problems
 
 PROPERTY = "C18"
@@ -37,6 +37,7 @@ CATALOGUE = [
     # data faults
     "fill_nonscalar", "fill_wrong_length", "fill_str_weight", "fill_n_wrong_rank", "fill_n_wrong_columns",
     "fill_n_weights_wrong_length", "fill_n_weights_str", "fill_n_values_str", "fill_n_grow_then_bad_weights",
+    "fill_n_bulk_weights_too_short", "fill_n_bulk_weights_too_long",
     "fill_weight_too_large_for_dtype", "fill_n_weight_too_large_for_dtype",
     "fill_grow_then_too_short", "fill_grow_then_none_coordinate", "fill_grow_then_str_weight",
     # dtype faults
@@ -83,6 +84,8 @@ VALID = ["fill", "fill", "fill_w", "fill_n", "fill_n", "fill_n_w", "iadd_copy", 
 
 def generate(rng, seed, part):
     fam = rng.choice(FAMILIES)
+    if bulk_tier(rng):
+        fam = rng.choice(["1d_wide", "3d_wide"])  # more than 4096 bins
     ops = []
     n = rng.randint(2, 14)
     n_inv = rng.randint(1, 5)
@@ -115,6 +118,10 @@ def make_node(cfg):
         dt = {"1d_int": None, "1d_float": np.float64, "1d_int32": np.int32}[fam]
         h = Histogram1D(StaticBinning(np.array([[0.0, 1.0], [1.0, 2.0], [2.0, 3.5], [3.5, 4.0]])),
                         **({"dtype": dt} if dt else {}))
+    elif fam == "1d_wide":
+        h = Histogram1D(FixedWidthBinning(bin_width=0.0009765625, bin_count=5000, bin_times_min=0), dtype=np.float64)
+    elif fam == "3d_wide":
+        h = HistogramND([FixedWidthBinning(bin_width=0.25, bin_count=18, bin_times_min=0) for _ in range(3)])
     elif fam == "1d_adaptive":
         h = Histogram1D(FixedWidthBinning(bin_width=0.5, bin_count=4, bin_times_min=0, adaptive=True))
     elif fam == "1d_gapped":
@@ -135,6 +142,16 @@ def make_node(cfg):
         vals = np.asarray([[round(r.uniform(0.0, 4.0) * 4) / 4 for _ in range(h.ndim)] for _ in range(n)], dtype=float)
         h.fill_n(vals[:, 0] if h.ndim == 1 else vals)
     return h
+
+
+def negative_somewhere(current, arg):
+    """Contents of the right shape with negative entries everywhere / only in the last cell / only in the first."""
+    arr = np.array(current, dtype=np.float64)
+    if arg % 3 == 0 or arr.size == 0:
+        return -np.ones(arr.shape)
+    flat = arr.reshape(-1)
+    flat[-1 if arg % 3 == 1 else 0] = -1.0
+    return flat.reshape(arr.shape)
 
 
 def apply_valid(h, kind, arg):
@@ -327,6 +344,15 @@ def apply_invalid(h, kind, arg):
     elif kind == "fill_n_weights_wrong_length":
         data = np.ones((3, nd)) * 0.5
         h.fill_n(data[:, 0] if nd == 1 else data, weights=[1.0, 2.0])
+    elif kind in ("fill_n_bulk_weights_too_short", "fill_n_bulk_weights_too_long"):
+        # thousands of rows (chunked implementations must not add the first chunks before noticing)
+        n_rows = 5000 + (arg % 3) * 2500
+        data = (np.arange(n_rows * nd, dtype=float).reshape(n_rows, nd) % 16) * 0.25
+        n_w = n_rows - 700 if kind.endswith("short") else n_rows + 7
+        kw = {"weights": np.ones(n_w) * 0.5}
+        if (arg >> 2) % 2:
+            kw["dropna"] = False
+        h.fill_n(data[:, 0] if nd == 1 else data, **kw)
     elif kind == "fill_n_weights_str":
         data = np.ones((2, nd)) * 0.5
         h.fill_n(data[:, 0] if nd == 1 else data, weights=["a", "b"])
@@ -413,11 +439,11 @@ def apply_invalid(h, kind, arg):
     elif kind == "set_frequencies_wrong_shape":
         h.frequencies = np.ones(tuple(s + 1 for s in shape))
     elif kind == "set_frequencies_negative":
-        h.frequencies = -np.ones(shape)
+        h.frequencies = negative_somewhere(h.frequencies, arg)
     elif kind == "set_errors2_wrong_shape":
         h.errors2 = np.ones(tuple(s + 1 for s in shape))
     elif kind == "set_errors2_negative":
-        h.errors2 = -np.ones(shape)
+        h.errors2 = negative_somewhere(h.errors2, arg)
     elif kind == "collection_other_binning":
         if nd != 1:
             return NotImplemented
